@@ -230,7 +230,7 @@ func checkFieldAssignment(
 
 	typeName := named.Obj().Name()
 	pkg := named.Obj().Pkg()
-	if pkg == nil {
+	if pkg == nil || !util.IsPackageLevelType(named) {
 		return nil
 	}
 
@@ -284,7 +284,7 @@ func checkIndexAssignment(
 
 	typeName := named.Obj().Name()
 	pkg := named.Obj().Pkg()
-	if pkg == nil {
+	if pkg == nil || !util.IsPackageLevelType(named) {
 		return nil
 	}
 
@@ -360,7 +360,7 @@ func checkFieldIncDec(
 
 	typeName := named.Obj().Name()
 	pkg := named.Obj().Pkg()
-	if pkg == nil {
+	if pkg == nil || !util.IsPackageLevelType(named) {
 		return nil
 	}
 
@@ -489,7 +489,7 @@ func checkCompoundLHS(
 
 	typeName := named.Obj().Name()
 	pkg := named.Obj().Pkg()
-	if pkg == nil {
+	if pkg == nil || !util.IsPackageLevelType(named) {
 		return nil
 	}
 
